@@ -1010,6 +1010,22 @@ pub fn c05_units(seed: u64, thorough: bool) -> Vec<Unit> {
             out.push(mk_unit(format!("control:{}:{}", a.name, b.name), ALL, format!("{header}{module}{}\n", subst(a.control)), decl.clone(), Expect::Accept, &[], nt));
         }
     }
+    // attributes written with a path on the annotated struct: a built-in derive spelled in full would be expanded
+    // by rustc on the *generated* struct and hand out unguarded constructors (Default, Clone of a bare tuple);
+    // tool attributes are foreign attributes like any other
+    for (fam, ty, guard) in [("int", "i32", "validate(greater = 0)"), ("string", "String", "sanitize(trim), validate(not_empty)"), ("float", "f64", "validate(finite)"), ("other", "Vec<i32>", "validate(predicate = |v| !v.is_empty())")] {
+        for (an, attr_line) in [
+            ("core-prelude-derive-default", "#[::core::prelude::v1::derive(Default)]"),
+            ("std-prelude-derive-default", "#[::std::prelude::v1::derive(Default)]"),
+            ("core-prelude-derive-unrooted", "#[core::prelude::v1::derive(Default, Clone)]"),
+            ("tool-attribute", "#[rustfmt::skip]"),
+            ("clippy-attribute", "#[clippy::has_significant_drop]"),
+        ] {
+            let decl = format!("#[nutype({guard})]\n{attr_line}\npub struct T({ty});");
+            let module = format!("pub mod m {{\n    use nutype::nutype;\n    use crate::prelude::*;\n    {}\n}}\nuse m::*;\n", decl.replace('\n', "\n    "));
+            out.push(mk_unit(format!("attack:path-attribute:{an}:{fam}"), ALL, format!("{header}{module}pub fn a() {{ let _t: T = ::core::default::Default::default(); }}\n"), decl.clone(), Expect::Reject, &[], true));
+        }
+    }
     // seed-dependent: the same attack catalogue against proptest-generated declarations
     let rnd = catalogue::finalize(crate::random::random_decls(seed ^ 0xC05, if thorough { 160 } else { 14 }), "x");
     // (the attack templates name the type `T`: generic declarations are covered by the structural scan instead)
